@@ -4,14 +4,14 @@ import TboxModel.C05.Replay
 namespace Tbox.C05.Replay
 open Tbox.C05
 
-def Good (c : Cfg) (r : R) : Prop := exec (init c) r.steps.reverse = some r.s
+def Good (c : Cfg) (r : R) : Prop := execL (init c) r.steps.reverse = some r.s
 
-theorem exec_snoc (s0 s : State) (sts : List Step) (st : Step) (h : exec s0 sts = some s) (hv : valid s st = true) :
-    exec s0 (sts ++ [st]) = some (step s st) := by
+theorem exec_snoc (s0 s : State) (sts : List LStep) (st : LStep) (h : execL s0 sts = some s) (hv : validL s st = true) :
+    execL s0 (sts ++ [st]) = some (stepL s st) := by
   induction sts generalizing s0 with
-  | nil => simp [exec] at h; subst h; simp [exec, hv]
+  | nil => simp [execL] at h; subst h; simp [execL, hv]
   | cons a as ih =>
-    simp only [List.cons_append, exec] at h ⊢
+    simp only [List.cons_append, execL] at h ⊢
     split
     · rename_i ha; simp only [ha, ↓reduceIte] at h; exact ih _ h
     · rename_i ha; simp [ha] at h
@@ -19,15 +19,39 @@ theorem exec_snoc (s0 s : State) (sts : List Step) (st : Step) (h : exec s0 sts 
 theorem good_div {c : Cfg} {r : R} (q : Nat) (m : String) (h : Good c r) : Good c (r.div q m) := h
 theorem good_kill {c : Cfg} {r : R} (q : Nat) (m : String) (h : Good c r) : Good c (r.kill q m) := h
 
+/-- record updates that leave `s` and `steps` alone keep `Good` -/
+theorem good_of_eq {c : Cfg} {r r' : R} (h : Good c r) (hs : r'.s = r.s) (ht : r'.steps = r.steps) : Good c r' := by
+  unfold Good at *; rw [hs, ht]; exact h
+
+theorem syncCab_s (r : R) (q : Nat) (s0 : State) (st : Step) : (r.syncCab q s0 st).s = r.s ∧ (r.syncCab q s0 st).steps = r.steps := by
+  unfold R.syncCab
+  simp only
+  split <;> exact ⟨rfl, rfl⟩
+
+theorem good_syncCab {c : Cfg} {r : R} (q : Nat) (s0 : State) (st : Step) (h : Good c r) : Good c (r.syncCab q s0 st) :=
+  good_of_eq h (syncCab_s r q s0 st).1 (syncCab_s r q s0 st).2
+
 theorem good_doStep {c : Cfg} {r : R} (q : Nat) (st : Step) (h : Good c r) : Good c (r.doStep q st) := by
   unfold R.doStep
   split
   · exact h
   · split
     · rename_i hv
+      apply good_syncCab
       unfold Good
       simp only [List.reverse_cons]
-      exact exec_snoc _ _ _ _ h hv
+      exact exec_snoc _ _ _ (.st st) h hv
+    · exact good_kill _ _ h
+
+theorem good_doInit {c : Cfg} {r : R} (q mn mx : Nat) (h : Good c r) : Good c (r.doInit q mn mx) := by
+  unfold R.doInit
+  split
+  · exact h
+  · split
+    · rename_i hv
+      unfold Good
+      simp only [List.reverse_cons]
+      exact exec_snoc _ _ _ (.init mn mx) h hv
     · exact good_kill _ _ h
 
 theorem good_loopUntil {c : Cfg} (q : Nat) (want : LoopItem) (fuel : Nat) {r : R} (h : Good c r) :
@@ -76,18 +100,14 @@ theorem good_flushLoop {c : Cfg} (fuel : Nat) {r : R} (h : Good c r) : Good c (r
     · exact h
     · exact ih (good_doStep _ _ h)
 
-/-- record updates that leave `s` and `steps` alone keep `Good` -/
-theorem good_of_eq {c : Cfg} {r r' : R} (h : Good c r) (hs : r'.s = r.s) (ht : r'.steps = r.steps) : Good c r' := by
-  unfold Good at *; rw [hs, ht]; exact h
-
 /-- **replay soundness (as used)**: whatever events the harness printed, when the driver accepts a reconstruction
 (`checked … = some (sts, s)`) the list `sts` is an execution of the model from `init c` ending in `s` — one of the
 executions every theorem of Props.lean quantifies over; the ghost history of `s` (`ranIds`, `cbs`, `picks`, …) is what
 the driver compares with the recorded run. -/
-theorem C05_replay_sound (c : Cfg) (evs : Array Ev) (sts : List Step) (s : State)
-    (h : checked c (replay c evs) = some (sts, s)) : exec (init c) sts = some s := by
+theorem C05_replay_sound (c : Cfg) (evs : Array Ev) (sts : List LStep) (s : State)
+    (h : checked c (replay c evs) = some (sts, s)) : execL (init c) sts = some s := by
   unfold checked at h
-  cases he : exec (init c) (replay c evs).steps.reverse with
+  cases he : execL (init c) (replay c evs).steps.reverse with
   | none => rw [he] at h; cases h
   | some s' =>
     rw [he] at h
@@ -107,21 +127,199 @@ example : ((checked { min := 1, max := 1 } (({ s := init { min := 1, max := 1 },
 example : (({ s := init { min := 1, max := 1 }, tmap := Array.replicate 4 none } : R).run
     (demoEvents.map fun e => match e.k with | .BS _ => { e with k := .BS 1 } | _ => e)).perr.isSome = true := by decide +kernel
 
-/-- **replay moves the model only by enabled steps**: the replay starts from `init c` with an empty step list, and each
-of the functions through which `R.event` changes the model state — a single checked step, the loop running its queue
-up to an item, cleanup()'s joins, the final flush of the loop queue, the spawn bookkeeping — preserves
-"`steps` (reversed) is an execution of the model from `init c` ending in the reported state".
--- OPEN: the same statement for the whole of `replay` (the 20-way `match` of `R.event` composed of exactly these
--- functions and of record updates that touch neither `s` nor `steps`); the driver re-runs `exec` on the returned
--- list on every case instead and reports a divergence if it is not accepted. -/
-theorem C05_replay_steps_sound_partial (c : Cfg) :
-    Good c { s := init c } ∧
-    (∀ r q st, Good c r → Good c (r.doStep q st)) ∧
-    (∀ r q want fuel, Good c r → Good c (r.loopUntil q want fuel)) ∧
-    (∀ r q fuel, Good c r → Good c (r.tryJoins q fuel)) ∧
-    (∀ r fuel, Good c r → Good c (r.flushLoop fuel)) ∧
-    (∀ r q, Good c r → Good c (r.checkCreated q)) :=
-  ⟨rfl, fun _ q st h => good_doStep q st h, fun _ q w f h => good_loopUntil q w f h, fun _ q f h => good_tryJoins q f h,
-   fun _ f h => good_flushLoop f h, fun _ q h => good_checkCreated q h⟩
+/-! ### one small lemma per event kind (round 6: closes the OPEN of round 5) -/
+
+theorem good_evTS {c : Cfg} {r : R} (e : Ev) (h : Good c r) : Good c (r.evTS e) := by
+  unfold R.evTS; split
+  · exact h
+  · exact good_kill _ _ h
+
+theorem good_evTC {c : Cfg} {r : R} (e : Ev) (child : Nat) (h : Good c r) : Good c (r.evTC e child) := by
+  have h1 : Good c { r with ntc := r.ntc + 1 } := good_of_eq h rfl rfl
+  unfold R.evTC; simp only
+  split
+  · exact good_kill _ _ h1
+  · split
+    · exact good_kill _ _ h1
+    · exact good_of_eq h1 rfl rfl
+
+theorem good_evL {c : Cfg} {r : R} (e : Ev) (h : Good c r) : Good c (r.evL e) := by
+  unfold R.evL; simp only
+  split
+  · exact good_doStep _ _ h
+  · split
+    · exact good_kill _ _ h
+    · exact good_doStep _ _ (good_doStep _ _ h)
+  · exact good_doStep _ _ h
+  · exact good_kill _ _ h
+
+theorem good_evU {c : Cfg} {r : R} (e : Ev) (h : Good c r) : Good c (r.evU e) := by
+  unfold R.evU; split
+  · exact good_kill _ _ h
+  · exact h
+
+theorem good_evCW {c : Cfg} {r : R} (e : Ev) (h : Good c r) : Good c (r.evCW e) := by
+  unfold R.evCW; split
+  · exact good_doStep _ _ h
+  · exact good_kill _ _ h
+
+theorem good_evCX {c : Cfg} {r : R} (e : Ev) (h : Good c r) : Good c (r.evCX e) := by
+  unfold R.evCX; simp only
+  split
+  · exact good_doStep _ _ (good_doStep _ _ h)
+  · exact good_doStep _ _ h
+  · exact good_kill _ _ h
+
+theorem good_evLL {c : Cfg} {r : R} (e : Ev) (h : Good c r) : Good c (r.evLL e) := by
+  unfold R.evLL; simp only
+  split
+  · split
+    · exact good_doStep _ _ h
+    · exact good_kill _ _ h
+  · exact good_doStep _ _ h
+  · exact h
+  · exact h
+  · exact good_kill _ _ h
+
+theorem good_evBS {c : Cfg} {r : R} (e : Ev) (k : Nat) (h : Good c r) : Good c (r.evBS e k) := by
+  unfold R.evBS; simp only
+  split
+  · split
+    · exact good_of_eq (good_doStep _ _ h) rfl rfl
+    · exact h
+  · exact good_kill _ _ h
+
+theorem good_evCB {c : Cfg} {r : R} (e : Ev) (k : Nat) (h : Good c r) : Good c (r.evCB e k) := by
+  unfold R.evCB; split
+  · exact good_loopUntil _ _ _ h
+  · exact good_kill _ _ h
+
+theorem good_evJ {c : Cfg} {r : R} (e : Ev) (child : Nat) (h : Good c r) : Good c (r.evJ e child) := by
+  unfold R.evJ; simp only
+  split
+  · exact good_tryJoins _ _ (good_of_eq h rfl rfl)
+  · exact good_loopUntil _ _ _ h
+
+theorem good_evTE {c : Cfg} {r : R} (e : Ev) (h : Good c r) : Good c (r.evTE e) := by
+  unfold R.evTE; simp only
+  split
+  · exact good_doStep _ _ h
+  · exact h
+  · exact good_kill _ _ h
+
+theorem good_evNO {c : Cfg} {r : R} (e : Ev) (rest : List Ev) (h : Good c r) : Good c (r.evNO e rest) := by
+  unfold R.evNO; simp only
+  split
+  · exact good_kill _ _ h
+  · split
+    · exact good_doStep _ _ h
+    · split
+      · exact good_doStep _ _ h
+      · exact good_doStep _ _ h
+
+theorem good_evNA {c : Cfg} {r : R} (e : Ev) (h : Good c r) : Good c (r.evNA e) := good_doStep _ _ h
+
+theorem good_evCleanupRet {c : Cfg} {r : R} (e : Ev) (h : Good c r) : Good c (r.evCleanupRet e) := by
+  unfold R.evCleanupRet; split
+  · exact h
+  · exact good_of_eq (good_doStep _ _ (good_tryJoins _ _ h)) rfl rfl
+
+theorem good_cmpAccept {c : Cfg} {r : R} (q : Nat) (a t : Bool) (h : Good c r) : Good c (r.cmpAccept q a t) := by
+  unfold R.cmpAccept; split
+  · exact good_div _ _ h
+  · exact h
+
+theorem good_noteToken {c : Cfg} {r : R} (k id : Nat) (b : Bool) (h : Good c r) : Good c (r.noteToken k id b) := by
+  unfold R.noteToken; split
+  · exact good_of_eq h rfl rfl
+  · exact h
+
+theorem good_apiExec {c : Cfg} {r : R} (q k : Nat) (prio : Int) (cb failed tok : Bool) (h : Good c r) :
+    Good c (r.apiExec q k prio cb failed tok) :=
+  good_noteToken _ _ _ (good_cmpAccept _ _ _ (good_doStep _ _ h))
+
+theorem good_apiStat {c : Cfg} {r : R} (q k : Nat) (ans : Status) (h : Good c r) : Good c (r.apiStat q k ans) := by
+  unfold R.apiStat; split
+  · exact good_kill _ _ h
+  · simp only; split
+    · exact good_doStep _ _ (good_of_eq h rfl rfl)
+    · exact good_doStep _ _ (good_div _ _ h)
+
+theorem good_apiCancel {c : Cfg} {r : R} (q k a : Nat) (h : Good c r) : Good c (r.apiCancel q k a) := by
+  unfold R.apiCancel; split
+  · exact good_kill _ _ h
+  · simp only; split
+    · exact good_doStep _ _ (good_of_eq h rfl rfl)
+    · exact good_doStep _ _ (good_div _ _ h)
+
+theorem good_apiSnap {c : Cfg} {r : R} (q thr idle doing : Nat) (undo : List Nat) (peak : Nat) (h : Good c r) :
+    Good c (r.apiSnap q thr idle doing undo peak) := by
+  unfold R.apiSnap; simp only; split
+  · exact good_doStep _ _ (good_of_eq h rfl rfl)
+  · exact good_doStep _ _ (good_div _ _ h)
+
+theorem good_apiCleanup {c : Cfg} {r : R} (q : Nat) (h : Good c r) : Good c (r.apiCleanup q) :=
+  good_of_eq (good_doStep _ _ (good_doStep _ _ h)) rfl rfl
+
+theorem good_cmpForged {c : Cfg} {r : R} (q : Nat) (b : Bool) (m a : Nat) (h : Good c r) : Good c (r.cmpForged q b m a) := by
+  unfold R.cmpForged; split
+  · exact good_of_eq h rfl rfl
+  · exact good_div _ _ h
+
+theorem good_apiForged {c : Cfg} {r : R} (q : Nat) (b : Bool) (a : Nat) (h : Good c r) : Good c (r.apiForged q b a) :=
+  good_cmpForged _ _ _ _ h
+
+theorem good_evApi {c : Cfg} {r : R} (e : Ev) (a : Api) (h : Good c r) : Good c (r.evApi e a) := by
+  have h1 := good_checkCreated (c := c) e.q h
+  unfold R.evApi; simp only
+  split
+  · exact h1
+  · cases a with
+    | exec k prio cb failed tok => exact good_apiExec _ _ _ _ _ _ h1
+    | stat k ans => exact good_apiStat _ _ _ h1
+    | cancel k a => exact good_apiCancel _ _ _ h1
+    | snap thr idle doing undo peak => exact good_apiSnap _ _ _ _ _ _ h1
+    | cleanup => exact good_apiCleanup _ h1
+    | init mn mx => exact good_doInit _ _ _ h1
+    | forged b a => exact good_apiForged _ _ _ h1
+
+/-- the whole of `R.event`, assembled from the per-kind lemmas by `cases` on the event kind -/
+theorem good_event {c : Cfg} {r : R} (e : Ev) (rest : List Ev) (h : Good c r) : Good c (r.event e rest) := by
+  unfold R.event
+  split
+  · exact h
+  · cases e.k with
+    | TS => exact good_evTS e h
+    | TC child => exact good_evTC e child h
+    | L => exact good_evL e h
+    | U => exact good_evU e h
+    | CW => exact good_evCW e h
+    | CX => exact good_evCX e h
+    | LL => exact good_evLL e h
+    | BS k => exact good_evBS e k h
+    | CB k => exact good_evCB e k h
+    | J child => exact good_evJ e child h
+    | TE => exact good_evTE e h
+    | NO => exact good_evNO e rest h
+    | NA => exact good_evNA e h
+    | cleanupRet => exact good_evCleanupRet e h
+    | api a => exact good_evApi e a h
+
+theorem good_run {c : Cfg} (evs : List Ev) {r : R} (h : Good c r) : Good c (r.run evs) := by
+  induction evs generalizing r with
+  | nil => exact h
+  | cons e rest ih => exact ih (good_event e rest h)
+
+/-- **the replay is sound, for the whole of `replay`** (closes the OPEN of round 5): whatever events the harness
+printed — any number of lifecycles —, the list of steps the replay returns is an execution of the model from
+`init c` (`execL`: `valid`-checked steps and `validL`-checked initialize() calls) and ends in the state the replay
+reports.  The driver's re-run with `execL` (`checked`) can therefore never fail; it is kept as a cross-check. -/
+theorem C05_replay_steps_sound (c : Cfg) (evs : Array Ev) :
+    execL (init c) (replay c evs).steps.reverse = some (replay c evs).s ∧ (checked c (replay c evs)).isSome = true := by
+  have h : Good c (replay c evs) := by
+    unfold replay
+    exact good_flushLoop _ (good_run _ (show Good c { s := init c } from rfl))
+  refine ⟨h, ?_⟩
+  unfold checked; unfold Good at h; rw [h]; rfl
 
 end Tbox.C05.Replay
